@@ -75,6 +75,8 @@ def shrink_rows(f, site, newlen_name, obj, index_param):
             continue
         env = dict(int_gate_env(index_param, True))
         env[newlen_name] = nl
+        for k in (f'{obj}.accessmode', f'{obj}._accessmode'):
+            env[k] = 'r+'         # the guard is evaluated for a writeable handle (mode gates are C11's business)
         for k in len_keys(obj):
             env[k] = L
         ft = folder(env)
